@@ -369,7 +369,88 @@ static void run_dynrf(const Case& c) {
     std::cout << '\n';
 }
 
+// fptrack <id> <n> <dt> <fptrack> <npart> <steps> <every> ; extra = e1 qmin qmax pmin pmax ystart(cells) ; data (1 bunch)
+// iterates FokkerPlanckMap::applyTo on an ensemble; prints mean/std of y (cells) and the range seen
+static void run_fptrack(const Case& c) {
+    uint32_t n = std::stoul(c.head[2]), dt = std::stoul(c.head[3]), fptr = std::stoul(c.head[4]);
+    uint32_t np = std::stoul(c.head[5]), steps = std::stoul(c.head[6]), every = std::stoul(c.head[7]);
+    float e1 = c.extra[0];
+    PhaseSpace::resetSize(n, 1);
+    auto g1 = mkps(n, 1, c.data.data(), c.extra[1], c.extra[2], c.extra[3], c.extra[4]);
+    auto g2 = mkps(n, 1, nullptr, c.extra[1], c.extra[2], c.extra[3], c.extra[4]);
+    FokkerPlanckMap fp(g1, g2, n, n, FokkerPlanckMap::FPType::full, static_cast<FokkerPlanckMap::FPTracking>(fptr), e1,
+                       static_cast<FokkerPlanckMap::DerivationType>(dt), nullptr);
+    std::vector<PhaseSpace::Position> parts(np);
+    for (uint32_t i = 0; i < np; i++) { parts[i].x = 1.0f + static_cast<float>(i % (n - 2)); parts[i].y = c.extra[5]; }
+    double ymin = 1e30, ymax = -1e30; uint64_t nonfinite = 0;
+    std::cout << "case " << c.id << '\n';
+    std::cout << "vals " << hx(g1->getAxis(1)->zerobin()) << ' ' << hx(g1->getDelta(1)) << '\n';
+    for (uint32_t k = 1; k <= steps; k++) {
+        fp.applyToAll(parts);
+        double m = 0, v = 0;
+        for (auto& p : parts) { if (!std::isfinite(p.y)) nonfinite++; ymin = std::min<double>(ymin, p.y); ymax = std::max<double>(ymax, p.y); m += p.y; }
+        m /= np;
+        for (auto& p : parts) v += (p.y - m) * (p.y - m);
+        v /= np;
+        if (k % every == 0 || k == steps)
+            std::cout << "vals " << hx(static_cast<float>(k)) << ' ' << hx(static_cast<float>(m)) << ' ' << hx(static_cast<float>(std::sqrt(v))) << '\n';
+    }
+    std::cout << "vals " << hx(static_cast<float>(ymin)) << ' ' << hx(static_cast<float>(ymax)) << ' ' << hx(static_cast<float>(nonfinite)) << '\n';
+}
+
+// rot <id> <n> <it> <nb> <K> <every> <lin|sin> ; extra = qmin qmax pmin pmax qscale pscale angle f_RF slip1 slip2 E0
+//   [revpart V_RF V0] ; data ; iterates RF kick (g1->g2) and drift (g2->g1), prints the centroid of bunch 0
+static void centroid_line(const PhaseSpace& ps, uint32_t n, uint32_t k) {
+    double m0 = 0, mq = 0, mp = 0;
+    const float* d = ps.getData();
+    for (uint32_t x = 0; x < n; x++) for (uint32_t y = 0; y < n; y++) {
+        double v = d[x * n + y]; m0 += v; mq += v * ps.q(x); mp += v * ps.p(y);
+    }
+    std::cout << "vals " << hx(static_cast<float>(k)) << ' ' << hx(static_cast<float>(mq / m0)) << ' '
+              << hx(static_cast<float>(mp / m0)) << ' ' << hx(static_cast<float>(m0)) << '\n';
+}
+static void run_rot(const Case& c) {
+    uint32_t n = std::stoul(c.head[2]), it = std::stoul(c.head[3]), nb = std::stoul(c.head[4]);
+    uint32_t K = std::stoul(c.head[5]), every = std::stoul(c.head[6]);
+    bool lin = c.head[7] == "lin";
+    const auto& e = c.extra;
+    PhaseSpace::resetSize(n, nb);
+    auto g1 = mkps(n, nb, c.data.data(), e[0], e[1], e[2], e[3], e[4], e[5]);
+    auto g2 = mkps(n, nb, nullptr, e[0], e[1], e[2], e[3], e[4], e[5]);
+    auto itp = static_cast<SourceMap::InterpolationType>(it);
+    std::unique_ptr<ProbeRF> rf;
+    if (lin) rf.reset(new ProbeRF(g1, g2, e[6], e[7], itp, false, nullptr));
+    else rf.reset(new ProbeRF(g1, g2, e[11], e[12], e[7], e[13], itp, false, nullptr));
+    std::vector<meshaxis_t> slip{e[6], e[8], e[9]};
+    ProbeDrift dm(g2, g1, slip, e[10], itp, false, nullptr);
+    std::cout << "case " << c.id << '\n';
+    std::cout << "aux " << hx(std::tan(rf->angle())) << ' ' << hx(rf->bl2phase()) << ' ' << hx(rf->syncphase()) << '\n';
+    std::cout << "aux2";
+    for (uint32_t x = 0; x < n; x++) {
+        float arg = g1->getAxis(0)->at(x) * rf->bl2phase() + rf->syncphase();
+        std::cout << ' ' << hx(arg) << ' ' << hx(std::sin(arg));
+    }
+    std::cout << '\n' << "aux3";
+    for (uint32_t y = 0; y < n; y++) {
+        float base = g2->getAxis(1)->at(y) * g2->getAxis(1)->scale("ElectronVolt") / e[10];
+        std::cout << ' ' << hx(base);
+        for (int i = 0; i < 3; i++) std::cout << ' ' << hx(std::pow(base, static_cast<meshaxis_t>(i)));
+    }
+    std::cout << '\n';
+    print_data("off", rf->offsets().data(), n);
+    print_data("off", dm.offsets().data(), n);
+    centroid_line(*g1, n, 0);
+    for (uint32_t k = 1; k <= K; k++) {
+        rf->apply();
+        dm.apply();
+        if (k % every == 0 || k == K) centroid_line(*g1, n, k);
+    }
+    print_data("out", g1->getData(), static_cast<size_t>(n) * n * nb);
+}
+
 static bool dispatch_more(const Case& c) {
+    if (c.kind == "rot") { run_rot(c); return true; }
+    if (c.kind == "fptrack") { run_fptrack(c); return true; }
     if (c.kind == "dynrf") { run_dynrf(c); return true; }
     if (c.kind == "fpiter") { run_fpiter(c); return true; }
     if (c.kind == "opts") { run_opts(c); return true; }
